@@ -62,7 +62,7 @@ func init() {
 			"real": {"json/ubjson/cborl Parser", "json/ubjson/cborl Decoder", "io.Copy"},
 			"stub": {"io.Reader (simkit.Reader)", "downstream visitor (counting sink)"}},
 		Assumptions: []string{"allocation is measured as the delta of /gc/heap/allocs:bytes around the call with bound 1 MiB + 64*len(input): small-object counts are flushed per span, so only allocations out of proportion are visible",
-			"termination backstop: in-process watchdog (25 s of CPU time without a heartbeat); events bounded by 8*len+16", "JSON top-level numbers are excluded from the truncation check (a prefix of a number is a number)"},
+			"termination backstop: in-process watchdog (40 s of CPU time without a heartbeat); events bounded by 8*len+16", "JSON top-level numbers are excluded from the truncation check (a prefix of a number is a number)"},
 	}
 	registry["C16"] = &propCfg{
 		Engine: fault.Engine{}, EngineName: "fault", Level: "fault_enumeration",
@@ -94,7 +94,7 @@ func init() {
 	registry["C20"] = &propCfg{
 		Engine: kcache.Engine{}, EngineName: "kcache", Level: "exploration",
 		QuickRuns: 300000, ThoroughRuns: 6000000, QuickCapS: 60, ThoroughCapS: 900,
-		Rule: "one run = one Unfolder with EnableKeyCache(n), n drawn from {0,1,2,3,5,64,1000} or exactly the number of distinct keys +-1, fed a history of 1-8 (thorough: 1-16) documents whose object keys come from a structured alphabet of 1-8 keys (common prefix/suffix at equal length, nested prefixes, one differing middle byte, multi-byte runes, single bytes 0x80-0xff, arbitrary bytes, NUL-padding/length-byte collisions, very long keys around 4096/8192/65536 bytes), written by the independent writers in a drawn format and parsed by the real parser under per-document chunk schedules with chunk buffers scribbled after every write, into a drawn map-bearing target type; all targets are inspected only after the whole history; evaluations = histories; distinct by (capacity, format, target, documents, schedules); every history is non-trivial (keys delivered by reference through the cache); key alphabets include pairs of equal-length keys that collide under twelve common 32-bit string hashes; 1 run in 150 is a wide population (255-300 or 65535-66000 distinct keys on a cache that holds about all of them, then early keys again), 1 in 600 a hot stream (130-66000 records with exactly n keys on a cache of about n, then unseen keys)",
+		Rule: "one run = one Unfolder with EnableKeyCache(n), n drawn from {0,1,2,3,5,64,1000} or exactly the number of distinct keys +-1, fed a history of 1-8 (thorough: 1-16) documents whose object keys come from a structured alphabet of 1-8 keys (common prefix/suffix at equal length, nested prefixes, one differing middle byte, multi-byte runes, single bytes 0x80-0xff, arbitrary bytes, NUL-padding/length-byte collisions, very long keys around 4096/8192/65536 bytes), written by the independent writers in a drawn format and parsed by the real parser under per-document chunk schedules with chunk buffers scribbled after every write, into a drawn map-bearing target type; all targets are inspected only after the whole history; evaluations = histories; distinct by (capacity, format, target, documents, schedules); every history is non-trivial (keys delivered by reference through the cache); key alphabets include pairs of equal-length keys that collide under twelve common 32-bit string hashes; 1 run in 150 is a wide population (255-300 or 65535-66000 distinct keys on a cache that holds about all of them, then early keys again), 1 in 600 a hot stream (130-30000 records with exactly n keys on a cache of about n, then unseen keys)",
 		Components: map[string][]string{
 			"real": {"gotype.Unfolder incl. symbolCache", "json/ubjson/cborl Parser"},
 			"stub": {"caller-side chunk buffers (simkit.Feed, scribbled)"}},
